@@ -265,6 +265,71 @@ impl C13 {
         }
     }
 
+    /// path-based entry points (Writer::to_file, Reader::from_file): a long list, then a short one, then the long one
+    /// again written to the same path; GffType::from_str for the three named dialects
+    fn file_case(&self, ctx: &mut Ctx, rng: &mut Rng) {
+        let dir = std::env::temp_dir().join(format!("biomon-c13-{}-{}", std::process::id(), ctx.index));
+        let _ = std::fs::create_dir_all(&dir);
+        let n = rng.range(3, 8);
+        let k = rng.range(0, 4);
+        let beds: Vec<BedRec> = (0..n).map(|i| BedRec { chrom: format!("chr{}", i), start: coord(rng), end: coord(rng), aux: (0..k).map(|_| text(rng, 0, 9, b"\t\r\n", true)).collect() }).collect();
+        let di = rng.usize(3);
+        let (_, dname, excl) = gff_dialect(di);
+        let gffs: Vec<GffRec> = (0..n).map(|_| gen_gff(rng, excl, false)).collect();
+        let path_b = dir.join("x.bed");
+        let path_g = dir.join("x.gff");
+        for (round, cnt) in [(0, n), (1, 1), (2, n)] {
+            let (bl, gl) = (beds[..cnt].to_vec(), gffs[..cnt].to_vec());
+            let (pb, pg) = (path_b.clone(), path_g.clone());
+            let r = guard(move || -> Result<(Vec<BedRec>, Vec<gff::Record>), String> {
+                {
+                    let mut w = bed::Writer::to_file(&pb).map_err(|e| e.to_string())?;
+                    for r in &bl {
+                        w.write(&bed_record(r)).map_err(|e| e.to_string())?;
+                    }
+                }
+                let ty: gff::GffType = ["gff3", "gff2", "gtf2"][di].parse().map_err(|e: String| e)?;
+                {
+                    let mut w = gff::Writer::to_file(&pg, ty).map_err(|e| e.to_string())?;
+                    for r in &gl {
+                        w.write(&gff_record(r)).map_err(|e| e.to_string())?;
+                    }
+                }
+                let mut rb = bed::Reader::from_file(&pb).map_err(|e| e.to_string())?;
+                let b: Vec<BedRec> = rb.records().map(|r| r.map(|r| bed_of(&r)).map_err(|e| e.to_string())).collect::<Result<_, _>>()?;
+                let mut rg = gff::Reader::from_file(&pg, ty).map_err(|e| e.to_string())?;
+                let g: Vec<gff::Record> = rg.records().map(|r| r.map_err(|e| e.to_string())).collect::<Result<_, _>>()?;
+                Ok((b, g))
+            });
+            ctx.eval(2 * cnt as u64);
+            let desc = |w: String| Obj::new().s("path", "to_file/from_file").u("write_number_to_same_path", round).s("gff_dialect", dname).d("bed_records", &&beds[..cnt.min(3)]).s("what", &w).done();
+            match r {
+                Err(p) => {
+                    ctx.violation(&format!("file-api:panic:{}", panic_site(&p)), desc(p));
+                    break;
+                }
+                Ok(Err(e)) => {
+                    ctx.violation("file-api:roundtrip-rejected", desc(e));
+                    break;
+                }
+                Ok(Ok((b, g))) => {
+                    if b != beds[..cnt] {
+                        ctx.violation("bed:file-roundtrip-differs", desc(format!("{} records read back, {} written: {:?}", b.len(), cnt, &b[..b.len().min(3)])));
+                        break;
+                    }
+                    let want: Vec<gff::Record> = gffs[..cnt].iter().map(gff_record).collect();
+                    if g != want {
+                        ctx.violation("gff:file-roundtrip-differs", desc(format!("{} records read back, {} written", g.len(), cnt)));
+                        break;
+                    }
+                }
+            }
+        }
+        let _ = std::fs::remove_dir_all(&dir);
+        ctx.shape(true, &("C13", "file", k, di));
+        ctx.count("file_path_cases", 1);
+    }
+
     /// structured corruption of exactly one record with a certain outcome
     fn corruption(&self, ctx: &mut Ctx, rng: &mut Rng, is_bed: bool) {
         let n = rng.range(2, 6);
@@ -531,7 +596,7 @@ impl Monitor for C13 {
          with 1-3 values each, keys/values avoiding the dialect's delimiter, terminator, value separator, quotes, TAB/CR/LF), with and without interleaved comment lines; records read \
          back must be field-for-field equal (attribute multimap per key in order). corruption case = one record of a valid file corrupted with a certain outcome (start/end replaced by \
          letters / negative / fraction / leading or trailing blank / empty / > u64::MAX; phase letter / 3..=255 / 256+ / negative; column removed; column appended): that record must be Err, \
-         every other record that is Ok must equal the file. byte case = random byte edits (quotes, CR, TAB, invalid UTF-8, NUL) or truncation at every offset: no panic, bounded item count, \
+         every other record that is Ok must equal the file. file case = Writer::to_file / Reader::from_file (and GffType::from_str) with a long, a short and again a long list written to the same path. byte case = random byte edits (quotes, CR, TAB, invalid UTF-8, NUL) or truncation at every offset: no panic, bounded item count, \
          complete lines read back as written. shape = (format/dialect, #aux columns, #keys, max values per key, comments?) / (corruption class, first record?, #columns) / (byte class)"
     }
     fn run_case(&mut self, ctx: &mut Ctx, g: u64, rng: &mut Rng) {
@@ -583,6 +648,9 @@ impl Monitor for C13 {
                 5 => {
                     let recs: Vec<BedRec> = (0..3).map(|i| BedRec { chrom: format!("chr{}", i), start: i, end: i + 5, aux: vec![] }).collect();
                     self.bed_roundtrip(ctx, rng, &recs, true);
+                    if !ctx.tiny() {
+                        self.file_case(ctx, rng);
+                    }
                 }
                 6..=9 => {
                     for _ in 0..30 {
@@ -642,6 +710,9 @@ impl Monitor for C13 {
                 ctx.count(&format!("gff_roundtrips:{}", name), 1);
             }
             7 | 8 => {
+                if rng.chance(1, 40) && !ctx.tiny() {
+                    return self.file_case(ctx, rng);
+                }
                 let is_bed = rng.chance(1, 2);
                 self.corruption(ctx, rng, is_bed);
             }
